@@ -22,7 +22,7 @@ def differential(ctx, cases, label, compare_bytes=True, release=False, model_fil
     """Run cases through model and implementation; returns (impl_results, model_results, mismatches)."""
     impl = run_impl(ctx, cases, release=release)
     mcases = [c for c in cases if model_filter is None or model_filter(c)]
-    model = run_model(ctx, mcases)
+    model = run_model(ctx, mcases, release=release)
     mism = []
     for c in mcases:
         i = impl.get(c.cid)
